@@ -1103,6 +1103,21 @@ func withNamedResults(vars map[string]Term, rt *types.Tuple, res []Term) map[str
 	return out
 }
 
+// fmtvTerm: the text fmt prints for a slice with %v, as an uninterpreted function fmtv!<elem> of the backing
+// array and the slice descriptor.
+func (vc *VC) fmtvTerm(st *State, x Term) string {
+	sl := x.T.Underlying().(*types.Slice)
+	key := vc.memKey(sl.Elem())
+	mem := vc.heapGet(st, key)
+	es := vc.sortOf(sl.Elem())
+	fn := q("fmtv!" + es)
+	if !vc.declared[fn] {
+		vc.declared[fn] = true
+		vc.emit("(declare-fun " + fn + " (" + arrSort(SInt, es) + " Slice) Str)")
+	}
+	return "(" + fn + " (select " + mem.S + " (sl.base " + x.S + ")) " + x.S + ")"
+}
+
 // sprintf models fmt.Sprintf for a constant format made of literal text, %s and %d.
 func (vc *VC) sprintf(fr *Frame, st *State, c *ssa.CallCommon) (Term, bool) {
 	fc, ok := c.Args[0].(*ssa.Const)
@@ -1164,7 +1179,7 @@ func (vc *VC) sprintf(fr *Frame, st *State, c *ssa.CallCommon) (Term, bool) {
 		switch format[i] {
 		case '%':
 			lit += "%"
-		case 's', 'd':
+		case 's', 'd', 'v':
 			if ai >= len(argv) || argv[ai] == nil {
 				return Term{}, false
 			}
@@ -1172,6 +1187,10 @@ func (vc *VC) sprintf(fr *Frame, st *State, c *ssa.CallCommon) (Term, bool) {
 			x := vc.value(fr, st, argv[ai])
 			ai++
 			switch {
+			case format[i] == 'v' && x.Sort == SSlice && x.T != nil:
+				// %v of a slice: an uninterpreted function of the slice's elements (what the text looks like is
+				// not modelled, only that it is determined by them)
+				parts = append(parts, vc.fmtvTerm(st, x))
 			case x.Sort == SStr:
 				parts = append(parts, x.S)
 			case x.Sort == SSlice && format[i] == 's':
@@ -1181,6 +1200,9 @@ func (vc *VC) sprintf(fr *Frame, st *State, c *ssa.CallCommon) (Term, bool) {
 			case x.Sort == SInt && format[i] == 'd':
 				vc.uses["strs"] = true
 				parts = append(parts, "(itoa "+x.S+")")
+			case format[i] == 'd' && strings.HasPrefix(x.Sort, "(_ BitVec"):
+				vc.uses["strs"] = true
+				parts = append(parts, "(itoa "+vc.toInt(x).S+")")
 			default:
 				return Term{}, false
 			}
